@@ -678,12 +678,7 @@ func (s *Sched) execute(tr transition) []*Thread {
 			t.pend.res = Sel{I: tr.ci, panicMsg: "send on closed channel"}
 			return []*Thread{t}
 		}
-		// k-th receive happens-before (k+cap)-th send completes
-		if len(k.recvVCs) > 0 && k.nsent >= k.cap {
-			t.acquire(k.recvVCs[0])
-			k.recvVCs = k.recvVCs[1:]
-		}
-		k.nsent++
+		k.sendCompletes(t)
 		k.buf = append(k.buf, slot{v: c.val, vc: t.vc.clone()})
 		t.tick()
 		t.absorb(k.obj.ID, uint64(tr.ci)+0x500, k.obj.hist, k.hRQ)
@@ -696,7 +691,11 @@ func (s *Sched) execute(tr transition) []*Thread {
 		k.buf = k.buf[1:]
 		t.acquire(sl.vc)
 		if k.cap > 0 {
-			k.recvVCs = append(k.recvVCs, t.vc.clone())
+			k.nrecv++
+			if k.recvVC == nil {
+				k.recvVC = map[int]VC{}
+			}
+			k.recvVC[k.nrecv] = t.vc.clone()
 			t.tick()
 		}
 		ran := []*Thread{t}
@@ -710,6 +709,7 @@ func (s *Sched) execute(tr transition) []*Thread {
 			}
 			for j, pc := range p.pend.cases {
 				if pc.core == k && pc.send {
+					k.sendCompletes(p) // the parked send is the one that pairs with this very receive
 					k.buf = append(k.buf, slot{v: pc.val, vc: p.vc.clone()})
 					p.acquire(t.vc)
 					p.tick()
@@ -732,6 +732,18 @@ func (s *Sched) execute(tr transition) []*Thread {
 	t.absorb(k.obj.ID, uint64(tr.ci)+0x800, k.obj.hist)
 	s.finishSel(t, tr.ci, nil, false)
 	return []*Thread{t}
+}
+
+// sendCompletes: the k-th receive on a channel of capacity C is synchronised before the
+// completion of the (k+C)-th send (Go memory model) - what makes a buffered channel a semaphore.
+func (k *chanCore) sendCompletes(t *Thread) {
+	k.nsent++
+	if i := k.nsent - k.cap; i >= 1 {
+		if vc, ok := k.recvVC[i]; ok {
+			t.acquire(vc)
+			delete(k.recvVC, i)
+		}
+	}
 }
 
 func (s *Sched) runUntilPost(t *Thread) {
